@@ -132,7 +132,7 @@ EXPORT errno_t _getenv_s_chk(size_t *restrict len, char *restrict dest,
     if (unlikely(name == NULL)) {
         if (len)
             *len = 0;
-        if (likely(dest)) {
+        if (likely(dest && dmax)) {
             handle_error(dest, dmax, "getenv_s: name is null", ESNULLP);
         }
         else {
@@ -150,7 +150,7 @@ EXPORT errno_t _getenv_s_chk(size_t *restrict len, char *restrict dest,
 #endif
 
     if (buf == NULL) {
-        if (likely(dest)) {
+        if (likely(dest && dmax)) {
 #ifdef SAFECLIB_STR_NULL_SLACK
             memset(dest, 0, dmax);
 #else
@@ -175,7 +175,7 @@ EXPORT errno_t _getenv_s_chk(size_t *restrict len, char *restrict dest,
 #else
             *len = len1;
 #endif
-        if (dest)
+        if (dest && dmax)
             strcpy_s(dest, dmax, buf);
     }
 
